@@ -613,7 +613,14 @@ def check_c08(ctx):
         if post is None:
             continue
         # blacklisted: never placed after a cycle
-        if pre.blacklisted and post.blacklisted and post.server is not None:
+        bl_fn = getattr(ctx.truth, 'blacklisted', None)
+        if bl_fn is not None:
+            # (master level: by the patterns the master was shown, not by
+            # the flag it set on the instance)
+            banned = bl_fn(name)
+        else:
+            banned = pre.blacklisted and post.blacklisted
+        if banned and post.server is not None:
             return ('C08:blacklisted-placed',
                     '%s is blacklisted but on %s after the cycle' % (
                         name, post.server))
